@@ -460,7 +460,7 @@ func c09Check(c *mc.Ctx, o *c09Oracle, cs c09Case) {
 	up1, up2 := strings.ToUpper(cs.S1), strings.ToUpper(cs.S2)
 	lower := up1 != cs.S1 || up2 != cs.S2
 	kind := c09Kind(up1, up2)
-	if kind == "" || cs.S1 == "" || cs.S2 == "" {
+	if (kind == "" && cs.Mode != "mm") || cs.S1 == "" || cs.S2 == "" { // a match/mismatch scheme needs no table
 		c.Fatal("case outside the enumerated domain: %s", jsonStr(cs))
 		return
 	}
@@ -793,6 +793,9 @@ func c09Tasks(tier string) []mc.Task {
 	// the 66 schemes through the protein alphabet
 	ts = c09PairTasks(ts, "mmprot", c09AlphaMMProt, 3, func(s1, s2 string) bool { return c09Kind(s1, s2) == "aa" }, mm)
 
+	// symbols that share an entry of the substitution tables without being the same residue (N and X), next to A
+	ts = c09PairTasks(ts, "mmnx", "ANX", 3, nil, mm)
+
 	// the same with lower-case residues (scheme-independent clauses only)
 	ts = c09PairTasks(ts, "mmlower", c09AlphaLower, 3, func(s1, s2 string) bool { return strings.ContainsAny(s1+s2, "ag") }, mm)
 
@@ -897,7 +900,7 @@ func init() {
 	mc.Register(&mc.Prop{
 		ID:    "C09",
 		Level: "exploration",
-		Rule: "(Longer sequences: for lengths n = 7, 10, .., 40 and m = n-3, n, n+5 a periodic sequence against a copy with substitutions and a deletion, 3 match/mismatch schemes in both orders and the matrix mode with 2 gap settings, judged by the Gotoh oracle. On every case: after the judged alignment another aligner aligns the swapped pair; the rows and the returned alignment of the first must read as before.) (Free-running complement under the race detector: 8 goroutines doing this property's operations on objects of their own must get the values the same work gives alone.) Command line: goalign sw on 8 pairs (nucleotide, protein, mixed case) with every subset of --match, --mismatch, --gap-open, --gap-extend given (4 value sets): the alignment written and the log (coordinates, length, score, counts) must be those of the library aligner configured the same way (substitution matrix unless --match or --mismatch is given). " + "bounded-exhaustive enumeration of align.NewPwAligner(s1,s2,ALIGN_ALGO_SW) with SetGapOpenScore/SetGapExtendScore always set (and SetScore in match/mismatch mode), then Alignment(); all pairs of length 1..6 over {A,C} also under 3 schemes with penalties beyond the defaults (30/-30/-12/-11, 20/-20/-25/-15, 30/-10/-11/-10.5) and the 8 non-binary schemes configured in the three setter orders (open-extend-scores, extend-open-scores, scores-extend-open); " +
+		Rule: "(Match/mismatch schemes also on all pairs of length <= 3 over {A,N,X}. Longer sequences: for lengths n = 7, 10, .., 40 and m = n-3, n, n+5 a periodic sequence against a copy with substitutions and a deletion, 3 match/mismatch schemes in both orders and the matrix mode with 2 gap settings, judged by the Gotoh oracle. On every case: after the judged alignment another aligner aligns the swapped pair; the rows and the returned alignment of the first must read as before.) (Free-running complement under the race detector: 8 goroutines doing this property's operations on objects of their own must get the values the same work gives alone.) Command line: goalign sw on 8 pairs (nucleotide, protein, mixed case) with every subset of --match, --mismatch, --gap-open, --gap-extend given (4 value sets): the alignment written and the log (coordinates, length, score, counts) must be those of the library aligner configured the same way (substitution matrix unless --match or --mismatch is given). " + "bounded-exhaustive enumeration of align.NewPwAligner(s1,s2,ALIGN_ALGO_SW) with SetGapOpenScore/SetGapExtendScore always set (and SetScore in match/mismatch mode), then Alignment(); all pairs of length 1..6 over {A,C} also under 3 schemes with penalties beyond the defaults (30/-30/-12/-11, 20/-20/-25/-15, 30/-10/-11/-10.5) and the 8 non-binary schemes configured in the three setter orders (open-extend-scores, extend-open-scores, scores-extend-open); " +
 			"on every case: rows (Seq1Ali/Seq2Ali and the returned Alignment) of equal length, no all-gap column, de-gapped rows = s[start..end] (0-based inclusive; an empty alignment has end = start-1), " +
 			"matches+mismatches+gaps = Length() = row length, gap count = gap columns, match/mismatch counts = identical/different residue pairs, inputs unchanged, no error, no panic; " +
 			"when the oracle optimum is > 0: MaxScore() = score of the returned rows (gap of length k costs open+(k-1)*extend) and MaxScore() = optimum of an independent three-state Gotoh local dynamic program, " +
